@@ -7,3 +7,95 @@ contract establishes for all arguments (modular verification: the caller never r
 
 def bytes_of(fn, *args):
     return fn(*args)
+
+
+# ---- a data type known ONLY by its codec contract ------------------------------------------------------------
+# What C06-C08 establish for every concrete type, in executable form.  Array / Struct bodies are verified against this
+# contract instead of against the bodies of particular element types: the result holds for every element type that
+# satisfies it (every elementary / string / derived type under contract in contracts/codec_*.py).
+def _image(label, value):
+    return ("<%s:%r>" % (label, value)).encode()
+
+
+def element_type(label="E", min_size=0, name=None):
+    """decode(stream):  returns a value having consumed k bytes, min_size <= k <= bytes remaining;   or
+                        raises BufferEmptyError having consumed nothing, only when no bytes remain;  or
+                        raises DataError (having consumed any part of what remains).
+       encode(value):   returns bytes that depend on the value only (`image`), or raises DataError."""
+    from pycomm3.cip.data_types import DataType
+    from pycomm3.exceptions import DataError, BufferEmptyError
+    from spec.nondet import nondet_int
+
+    class Elem(DataType):
+        calls = []        # ghost log of decode calls: (start, end, outcome, value)
+        encodes = []      # ghost log of encode calls: (value, ok)
+
+        @classmethod
+        def image(cls, value):
+            return bytes_of(_image, label, value)
+
+        @classmethod
+        def encode(cls, value, *args, **kwargs):
+            if nondet_int(0, 1) == 1:
+                cls.encodes.append((value, False))
+                raise DataError("value outside the domain of " + label)
+            cls.encodes.append((value, True))
+            return cls.image(value)
+
+        @classmethod
+        def decode(cls, buffer):
+            stream = buffer
+            start = stream.tell()
+            remaining = len(stream.getvalue()) - start
+            mode = nondet_int(0, 1)
+            if mode == 1 or remaining < min_size:
+                if remaining == 0:
+                    cls.calls.append((start, start, "empty", None))
+                    raise BufferEmptyError()
+                k = nondet_int(0, remaining)
+                stream.read(k)
+                cls.calls.append((start, start + k, "error", None))
+                raise DataError("malformed " + label)
+            k = nondet_int(min_size, remaining)
+            stream.read(k)
+            value = (label, len(cls.calls))
+            cls.calls.append((start, start + k, "ok", value))
+            return value
+
+    Elem.__name__ = label
+    return Elem(name) if name is not None else Elem
+
+
+def contiguous_ok(calls, start):
+    """every logged decode succeeded and began where the previous one ended"""
+    pos = start
+    for c in calls:
+        if c[2] != "ok" or c[0] != pos:
+            return False
+        pos = c[1]
+    return True
+
+
+def end_of(calls, start):
+    return calls[-1][1] if calls else start
+
+
+def member_calls(types):
+    """decode log of a member list, in member order (each member type is its own abstract type)"""
+    out = []
+    for t in types:
+        out = out + list(t.calls)
+    return out
+
+
+def called_in_order(types):
+    """members are decoded front to back: once one has not been called (or failed), no later one is called"""
+    stopped = False
+    for t in types:
+        if stopped and len(t.calls) > 0:
+            return False
+        if len(t.calls) > 1:
+            return False
+        if len(t.calls) == 0 or t.calls[0][2] != "ok":
+            stopped = True
+    return True
